@@ -135,6 +135,11 @@ def stmt_text(mod, st):
     if k == "K":
         fn = "module-variables" if st[2] == "v" else "module-functions"
         return f'p{st[1]} {{ r: meta.inspect(meta.{fn}("{st[3]}")); }}'
+    if k == "I":
+        return f'@import "{url_text(st[1])}";'
+    if k == "L":
+        w = (", $with: (" + ", ".join(f'"{n}": v{v}' for n, v in st[2]) + ")") if st[2] else ""
+        return f'@include meta.load-css("{url_text(st[1])}"{w});'
     raise ValueError(k)
 
 
@@ -142,7 +147,7 @@ def render(proj):
     files = {}
     for m in proj["mods"]:
         lines = []
-        if any(s[0] in ("P", "K") for s in m["body"]):
+        if any(s[0] in ("P", "K", "L") for s in m["body"]) and not m.get("sheet"):
             lines.append('@use "sass:meta";')
         lines += [stmt_text(m["name"], s) for s in m["body"]]
         files[mod_relpath(m)] = "\n".join(lines) + "\n"
@@ -191,14 +196,27 @@ def enc_stmt(st):
         return ["K", str(st[1]), st[2], st[3]]
     if k == "N":
         return ["N", str(st[1]), str(st[2]), st[3], str(st[4])]
+    if k == "I":
+        return ["I", url_enc(st[1])]
+    if k == "L":
+        out = ["L", url_enc(st[1]), str(len(st[2]))]
+        for n, v in st[2]:
+            out += [n, str(v)]
+        return out
     raise ValueError(k)
+
+
+def is_x(proj):
+    """a project with @import / load-css (driver op `runx`: Grass.Module.runX)"""
+    return any(m.get("sheet") or any(s[0] in ("I", "L") for s in m["body"]) for m in proj["mods"])
 
 
 def enc_proj(proj, sw):
     lps = ",".join(proj.get("load_paths") or []) or "-"
-    toks = ["module", "run", sw, proj["entry"], "1" if proj.get("lexical") else "0", lps, str(len(proj["mods"]))]
+    x = is_x(proj)
+    toks = ["module", "runx" if x else "run", sw, proj["entry"], "1" if proj.get("lexical") else "0", lps, str(len(proj["mods"]))]
     for m in proj["mods"]:
-        toks += ["M", m["name"], mod_relpath(m)[:-len(".scss")], str(len(m["body"]))]
+        toks += ["S" if m.get("sheet") else "M", m["name"], mod_relpath(m)[:-len(".scss")], str(len(m["body"]))]
         for s in m["body"]:
             toks += enc_stmt(s)
     return " ".join(toks)
@@ -213,7 +231,8 @@ ERR_CLASSES = [
     ("There's already a module with namespace", "nsExists"), ("There is no module with the namespace", "noSuchNs"),
     ("Undefined variable", "undefVar"), ("Undefined function", "undefFn"), ("Undefined mixin", "undefMixin"),
     ("Private members can't be accessed", "privateAccess"), ("was not declared with !default", "withNotDefault"),
-    ("both define a variable named", "starConflict"),
+    ("both define a variable named", "starConflict"), ("This file is already being loaded", "importLoop"),
+    ("Built-in module", "builtinConfigured"),
 ]
 
 
@@ -694,8 +713,143 @@ class Gen:
         feat |= {"triangle", "forward"} | ({"prefix"} if pfx else set()) | ({"show"} if vis[0] == "S" else {"hide"} if vis[0] == "H" else set())
         return {"entry": "main", "mods": [a, mid, {"name": "main", "partial": False, "body": body}], "feat": sorted(feat)}
 
+    def xproj(self):
+        """@import of plain sheets and meta.load-css (driver `runx`).  Modules a, b (import-free; b may load a), sheets
+        s1, s2 (declarations, getter functions, bare unguarded probes, s2 may @import s1, sheets meant for load-css may
+        @use a module, assign through it and probe it), an importing module c that main configures with `with`, and main."""
+        r = self.rng
+        self.val, self.pid = 0, 0
+        self.targets = set()
+        feat = {"x"}
+        U0 = lambda t: (t, False, r.random() < 0.2, r.random() < 0.2)
+        avars = {n: r.random() < 0.5 for n in r.sample(VARS, r.choice([1, 2, 3]))}
+        a = M("a", *[("V", n, self.v(), g) for n, g in avars.items()], ("F", "geta", list(avars)[0]), ("D",), ("C",), partial=r.random() < 0.3)
+        bbody = []
+        bvars = {n: r.random() < 0.5 for n in r.sample(VARS, r.choice([1, 2]))}
+        x = r.random()
+        if x < 0.3:
+            bbody.append(("U", U0("a"), "=", []))
+        elif x < 0.6:
+            bbody.append(("W", U0("a"), r.choice([None, "p-"]), ("A",), []))
+        bbody += [("V", n, self.v(), g) for n, g in bvars.items()] + [("D",), ("C",)]
+        b = M("b", *bbody)
+        pub = {"a": list(avars), "b": list(bvars)}
+
+        def sheet(name, earlier, allow_use):
+            body, declared = [], []
+            if allow_use and r.random() < 0.6:
+                t = r.choice(["a", "b"])
+                ns = r.choice(["=", "=", "n1", "lib"])
+                body.append(("U", U0(t), ns, []))
+                key = t if ns == "=" else ns
+                feat.add("x-sheet-uses-module")
+                for _ in range(r.choice([1, 2])):
+                    n = r.choice(pub[t] + ["zz"]) if r.random() < 0.9 else "-p"
+                    if r.random() < 0.35 and not is_private(n):
+                        body.append(("A", key, n, self.v(), False))
+                    body.append(("P", self.p(), False, "v", key, n))
+            for _ in range(r.choice([1, 2, 3, 4])):
+                y = r.random()
+                if y < 0.45:
+                    n = r.choice(VARS)
+                    body.append(("V", n, self.v(), r.random() < 0.6))
+                    declared.append(n)
+                elif y < 0.75 and (declared or r.random() < 0.08):
+                    n = r.choice(declared) if declared and r.random() < 0.95 else r.choice(VARS)
+                    body.append(("P", self.p(), False, "v", None, n))
+                elif y < 0.85 and declared:
+                    body.append(("F", "get" + name, r.choice(declared)))
+                    body.append(("P", self.p(), False, "f", None, "get" + name))
+                elif earlier and y < 0.97:
+                    body.append(("I", U0(r.choice(earlier))))
+                    feat.add("x-import-chain")
+            if not any(s_[0] == "P" for s_ in body):
+                body.append(("P", self.p(), False, "f", None, "get" + name))     # always observable (plain function if undefined)
+            return {"name": name, "partial": r.random() < 0.3, "sheet": True, "body": body}
+
+        lc_only = r.random() < 0.5                # s2 is meant for load-css only: it may @use a module
+        s1 = sheet("s1", [], False)
+        s2 = sheet("s2", ["s1"], lc_only)
+        if r.random() < 0.06:
+            s1["body"].append(("I", U0("s2")))    # import cycle s1 <-> s2
+            if not any(s_[0] == "I" for s_ in s2["body"]):
+                s2["body"].append(("I", U0("s1")))
+            feat.add("x-import-cycle")
+        sheets = {"s1": s1, "s2": s2}
+
+        def includes(body, into_main):
+            for _ in range(r.choice([1, 1, 2, 3])):
+                t = r.choice(["s1", "s2"])
+                uses = any(s_[0] == "U" for s_ in sheets[t]["body"])
+                if (uses and r.random() < 0.93) or (not uses and r.random() < 0.4):
+                    cfg = []
+                    if r.random() < 0.35:
+                        cfg = [(r.choice(VARS + ["zz"]), self.v()) for _ in range(r.choice([1, 1, 2]))]
+                        cfg = list({n: (n, v) for n, v in cfg}.values())
+                        feat.add("x-load-css-with")
+                    body.append(("L", U0(t), cfg))
+                    feat.add("x-load-css")
+                else:
+                    body.append(("I", U0(t)))
+                    feat.add("x-import" if not uses else "x-import-of-sheet-with-use")
+                if r.random() < 0.6:
+                    decl = [s_[1] for s_ in sheets[t]["body"] if s_[0] == "V"]
+                    if decl or r.random() < 0.05:
+                        body.append(("P", self.p(), False, "v", None, r.choice(decl) if decl and r.random() < 0.95 else r.choice(VARS)))
+            if sum(1 for s_ in body if s_[0] in ("I", "L")) != len({s_[1][0] for s_ in body if s_[0] in ("I", "L")}):
+                feat.add("x-same-sheet-included-twice")
+
+        mods = [a, b, s1, s2]
+        main = []
+        for n in r.sample(VARS, r.choice([0, 1, 2])):
+            main.append(("V", n, self.v(), r.random() < 0.4))
+        used = {}
+        for t in r.sample(["a", "b"], r.choice([0, 1, 2])):
+            ns = r.choice(["=", "=", "n1", "lib", "*"]) if r.random() < 0.3 else r.choice(["=", "n1", "lib"])
+            if ns != "*" and (t if ns == "=" else ns) in used:
+                continue
+            cfg = [(n, self.v()) for n in r.sample(pub[t], 1)] if r.random() < 0.2 else []
+            main.append(("U", U0(t), ns, cfg))
+            if ns != "*":
+                used[t if ns == "=" else ns] = t
+        if r.random() < 0.45:
+            # an importing module configured by main: `with` reaches the `!default` declarations of the imported sheet
+            cbody = []
+            includes(cbody, False)
+            cbody += [("D",), ("C",)]
+            mods.append(M("c", *cbody))
+            inc = [sheets[s_[1][0]] for s_ in cbody if s_[0] in ("I", "L")]
+            decl = [s_[1] for sh in inc for s_ in sh["body"] if s_[0] == "V" and s_[3]]
+            cfg = [(r.choice(decl) if decl and r.random() < 0.85 else r.choice(VARS + ["zz"]), self.v())] if r.random() < 0.45 else []
+            main.append(("U", U0("c"), "=", cfg))
+            used["c"] = "c"
+            feat.add("x-importing-module")
+            if cfg:
+                feat.add("x-with-on-importing-module")
+        if r.random() < 0.85 or "c" not in used:
+            includes(main, True)
+        if r.random() < 0.04:
+            main.append(("I", ("nofile", False, False, False)))
+            feat.add("err:missing")
+        main += [("D",), ("C",)]
+        for ns, t in used.items():
+            names = (pub.get(t) or VARS) + ["zz"]
+            for n in r.sample(names, min(len(names), 2)):
+                main.append(("P", self.p(), True, "v", ns, n))
+            if r.random() < 0.4:
+                main.append(("K", self.p(), "v", ns))
+        own = [s_[1] for s_ in main if s_[0] == "V"]
+        for n in own[:2] + (r.sample(VARS, 1) if r.random() < 0.1 else []):
+            main.append(("P", self.p(), False, "v", None, n))          # a name no included sheet declared: Undefined variable
+        for t in ("s1", "s2"):
+            main.append(("P", self.p(), False, "f", None, "get" + t))  # the sheet's getter if it leaked, else a plain CSS function
+        mods.append(M("main", *main))
+        return {"entry": "main", "mods": mods, "feat": sorted(feat)}
+
     def special(self):
         x = self.rng.random()
+        if x > 0.86:
+            return self.xproj()
         if x < 0.12:
             return self.triangle()
         if x < 0.20:
@@ -828,8 +982,10 @@ def untuple(q):
         body = []
         for s in m["body"]:
             s = list(s)
-            if s[0] in ("U", "W"):
+            if s[0] in ("U", "W", "I", "L"):
                 s[1] = tuple(s[1])
+            if s[0] == "L":
+                s[2] = [tuple(x) for x in s[2]]
             if s[0] == "U":
                 s[3] = [tuple(x) for x in s[3]]
             if s[0] == "W":
@@ -934,6 +1090,19 @@ def corpus():
     add("nested-default-is-local", [], M("t", ("V", "w", 1, True), ("N", 1, 0, "x", 2), ("N", 2, 2, "w", 3), ("N", 3, 4, "z", 4), ("D",), ("C",)),
         M("main", U("t", "=", [("w", 9)]), ("P", 4, True, "v", "t", "x"), ("P", 5, True, "v", "t", "w"), ("P", 6, True, "v", "t", "z"),
           ("K", 7, "v", "t"), ("K", 8, "f", "t")))
+    # round 3: @import of plain sheets is inclusion into the importing module; load-css as found is the same (known finding)
+    u0 = lambda t: (t, False, False, False)
+    S1 = dict(M("s1", ("V", "x", 5, True), ("P", 1, False, "v", None, "x")), sheet=True)
+    S2 = dict(M("s2", U("a"), ("V", "y", 5, True), ("P", 1, False, "v", None, "y"), ("P", 3, False, "v", "a", "x")), sheet=True)
+    add("import-plain-sees-importer", [], S1, M("main", ("V", "x", 9, False), ("I", u0("s1")), ("I", u0("s1")), ("P", 2, False, "v", None, "x")))
+    add("import-config-reaches-sheet", [], S1, M("c", ("I", u0("s1")), ("D",), ("C",)),
+        M("main", U("c", "=", [("x", 8)]), ("P", 2, True, "v", "c", "x")))
+    add("import-cycle", [], dict(M("s3", ("P", 1, False, "f", None, "q"), ("I", u0("s4"))), sheet=True), dict(M("s4", ("I", u0("s3"))), sheet=True),
+        M("main", ("I", u0("s3"))))
+    add("import-missing", [], M("main", ("D",), ("I", u0("nofile"))))
+    add("load-css-leaks", ["loadCssIsImport"], A_STD, S2, M("main", ("L", u0("s2"), []), ("P", 2, False, "v", None, "y")))
+    add("load-css-twice-ns-clash", ["loadCssIsImport"], A_STD, S2, M("main", ("L", u0("s2"), []), ("L", u0("s2"), [])))
+    add("load-css-with-ignored", ["loadCssIsImport"], A_STD, S2, M("main", ("L", u0("s2"), [("y", 9)])))
     # spellings of one partial
     add("spellings", [], M("a", ("V", "x", 1, False), ("D",), ("C",), partial=True),
         M("main", ("U", ("a", False, False, False), "=", []), ("U", ("a", True, False, False), "n1", []), ("U", ("a", False, True, True), "n2", []),
@@ -1077,7 +1246,10 @@ def evaluate(ck, pool, projs, tier):
         ci, cn, cs = canon_for_compare(p, ob), canon_for_compare(p, now), canon_for_compare(p, spec)
         results.append({"proj": p, "files": f, "ans": ans, "ob": ob, "now": now, "spec": spec, "ci": ci, "cn": cn, "cs": cs, "once": oa, "tri": tf})
         if ci != cs:
-            need_single.append(len(results) - 1)
+            if ci == cn and any(s_[0] == "L" for m_ in p["mods"] for s_ in m_["body"]):
+                results[-1]["tags"] = ["loadCssIsImport"]       # as found: load-css is an import (Switches of runX)
+            else:
+                need_single.append(len(results) - 1)
     # classify deviations from the specified behaviour by the smallest set of known switches that explains them
     # (the as-found model with all of them on is `now`; so whenever the tie holds some subset matches)
     if need_single:
@@ -1258,6 +1430,36 @@ def check_aliases(ck, pool):
             ck.notes.append(f"module-only functions without a sample: {sorted(tbl - known_only)}")
             ck.unproved("correspondence-broken", {"why": "module-only built-in functions without a sampled call", "functions": sorted(tbl - known_only)})
     ck.cov["alias_pairs"] = len(pairs)
+    # a built-in module under two namespaces is the same module; the same namespace twice and `with` are errors
+    # (load_module, visitor.rs:670-689; Modules::insert)
+    bjobs, bmeta = [], []
+    for m in sorted({p_[0] for p_ in pairs}):
+        f = next(p_[1] for p_ in pairs if p_[0] == m and p_[2] in ALIAS_ARGS)
+        args = ALIAS_ARGS[next(p_[2] for p_ in pairs if p_[0] == m and p_[1] == f)][0]
+        for kind, src in (("twice-same-namespace", f'@use "sass:{m}"; @use "sass:{m}";'),
+                          ("with", f'@use "sass:{m}" with ($x: 1);'),
+                          ("forward-with", f'@forward "sass:{m}" with ($x: 1);'),
+                          ("two-namespaces", f'@use "sass:meta" as qq; @use "sass:{m}" as m1; @use "sass:{m}"; '
+                                             f'a {{ r: qq.inspect(m1.{f}({args})); s: qq.inspect({m}.{f}({args})); }}')):
+            bjobs.append(compile_job(src, syntax="scss"))
+            bmeta.append((m, kind, src))
+    for (m, kind, src), ans in zip(bmeta, pool.map(bjobs, timeout=10)):
+        ck.count(("builtin-load", m, kind), True)
+        cls = err_class(ans) if ans.get("status") != "ok" else "ok"
+        ck.hist(f"builtin-load:{kind}:{cls}")
+        bad = None
+        if kind == "twice-same-namespace" and cls != "nsExists":
+            bad = f"loading sass:{m} twice under one namespace -> {cls}"
+        elif kind in ("with", "forward-with") and cls != "builtinConfigured":
+            bad = f"`with` on the built-in module sass:{m} -> {cls}"
+        elif kind == "two-namespaces":
+            rules = cssread.flat_rules(cssread.parse(ans["css"])) if cls == "ok" else []
+            d = dict(rules[0][2]) if rules else {}
+            if cls != "ok" or d.get("r") is None or d.get("r") != d.get("s"):
+                bad = f"sass:{m} under two namespaces: {cls} {d}"
+        if bad:
+            failing.append({"project": {"files": {"p/main.scss": src}, "entry": "p/main.scss"}, "feat": ["builtin-load"],
+                            "failures": [bad], "impl_observation": cls, "tags": [], "size": 1, "proj": None})
     return failing
 
 
@@ -1408,7 +1610,11 @@ def run(tier, seed):
                       "Fs::canonicalize is the identity and a `..` path is a file only as a literal key = another module, or on "
                       "the real disk, where it is the same module); three-level configuration chains; repeated assignments "
                       "through forwarders read back through every alias; fixed load-css / @import-forwards scenarios; every "
-                      "built-in alias pair called with type-correct arguments. A project "
+                      "built-in alias pair called with type-correct arguments; 14% of the projects (`xproj`, driver op runx = Grass.Module.runX) have "
+                      "sheets that are @import-ed (plain sheets, chains, cycles, twice, from main and from a module that main configures "
+                      "with `with`) and meta.load-css-ed (with and without $with, twice, sheets that @use a module, assign through "
+                      "it and probe it), every included statement observed by an unguarded probe; each built-in module loaded twice "
+                      "under one / two namespaces and with `with`. A project "
                       "is distinct by its encoded AST and non-trivial when it has >= 2 modules and at least one @use/@forward.")
     ck.assumptions = ["paths: `.scss` files only, no index files; real-disk projects have no symlinks except the two fixed layouts; "
                       "module file names contain no `_` except the partial marker", "member bodies are constants / getters; values are opaque tokens",
